@@ -234,8 +234,7 @@ def extern_call(an, f, st, t, c, argiv):
 
 def iter_owner(f, operand):
     """Local that `&mut it` (possibly re-borrowed) points to."""
-    from .c04 import resolve_owner
-    return resolve_owner(f, operand)
+    return flow.resolve_owner(f, operand)
 
 
 def size_of(ta):
